@@ -14,6 +14,7 @@
 From Coq Require Import List ZArith Bool.
 From Verif Require Import C15.Model C15.Spec C15.Proofs C15.Witness C15.Faults C15.FaultsProofs.
 From Verif Require Import C15.Keys C15.KeysProofs.
+From Verif Require Import C15.Utf8 C15.Utf8Proofs C15.Entry C15.EntryProofs.
 Import ListNotations.
 Open Scope Z_scope.
 
@@ -602,3 +603,150 @@ Example C15_delimiter_in_urls_roundtrip :
                     ((mc_GET, u), mkAgg 6 0 0 0 0)] [] [] [] [] in
   restore (persist s) = s /\ length (sE s) = 6%nat.
 Proof. vm_compute. split; reflexivity. Qed.
+
+(* ====================================================================== *)
+(* 8. Keys that are not valid UTF-8 (Utf8.v, Entry.v).
+
+   HAProxy logs header values raw, so method, URL, consumer tag and interceptor
+   of a record as logged are arbitrary byte strings; the state file is JSON,
+   which writes a byte that is not valid UTF-8 as U+FFFD.  The code (with
+   patches/C15/fix-F-C15e.patch) therefore makes these four fields valid UTF-8
+   where records enter discovery.Run ([sanitize] = strings.ToValidUTF8 with
+   replacement U+FFFD), before the URL tree or any map sees them:
+   [run_entry bs = run (map sanitize_batch bs)].  Every theorem of sections 1-7
+   is about [run] on an arbitrary history, hence holds for the history
+   [map sanitize_batch bs] of any logged history [bs] (its hypothesis
+   [batches_ok] is inherited, below): statistics are those of the records with
+   their keys read as text, and two spellings that read the same are COMBINED. *)
+
+(* to_valid_utf8: the result is well-formed UTF-8; well-formed input is left
+   alone (so it is idempotent, and decides well-formedness); no ':' appears. *)
+Theorem C15_to_valid_utf8 : forall s,
+  valid_utf8 (to_valid_utf8 s) /\
+  (valid_utf8 s -> to_valid_utf8 s = s) /\
+  to_valid_utf8 (to_valid_utf8 s) = to_valid_utf8 s /\
+  (valid_utf8b s = true <-> valid_utf8 s) /\
+  (nocolon s -> nocolon (to_valid_utf8 s)).
+Proof.
+  intros s. split; [apply to_valid_utf8_valid|]. split; [apply to_valid_utf8_id|].
+  split; [apply to_valid_utf8_idem|]. split; [apply valid_utf8_iff | apply nocolon_to_valid].
+Qed.
+Print Assumptions C15_to_valid_utf8.
+
+(* what Go's strings.ToValidUTF8(s, "�") gives (the same values come out of
+   the real function on every run of the harness: corpus of suite stream):
+   Latin-1 e-acute; a run of two invalid bytes -> ONE replacement; a truncated
+   3-byte sequence; an overlong '/'; a surrogate (3 invalid bytes, one run);
+   beyond U+10FFFF; two runs separated by a valid character; well-formed 2-,
+   3-, 4-byte characters and U+FFFD itself are kept *)
+Example C15_to_valid_utf8_examples :
+  to_valid_utf8 [99; 97; 102; 233] = [99; 97; 102; 239; 191; 189] /\
+  to_valid_utf8 [255; 254; 97] = [239; 191; 189; 97] /\
+  to_valid_utf8 [97; 226; 130] = [97; 239; 191; 189] /\
+  to_valid_utf8 [192; 175; 98] = [239; 191; 189; 98] /\
+  to_valid_utf8 [237; 160; 128] = [239; 191; 189] /\
+  to_valid_utf8 [244; 144; 128; 128; 47] = [239; 191; 189; 47] /\
+  to_valid_utf8 [233; 97; 232] = [239; 191; 189; 97; 239; 191; 189] /\
+  to_valid_utf8 [195; 169; 226; 130; 172; 240; 159; 152; 128; 239; 191; 189]
+    = [195; 169; 226; 130; 172; 240; 159; 152; 128; 239; 191; 189] /\
+  to_valid_utf8 [226; 130; 226; 130; 172] = [239; 191; 189; 226; 130; 172].
+Proof. vm_compute. repeat split; reflexivity. Qed.
+
+(* Sanitising touches nothing but keys that are not well-formed: a history whose
+   key fields are all valid UTF-8 is processed exactly as before.  In general
+   the sanitised history has well-formed key fields and still no ':' in a method. *)
+Theorem C15_sanitising_changes_only_invalid_keys : forall bs,
+  (recs_valid bs -> map sanitize_batch bs = bs /\ run_entry bs = run bs) /\
+  recs_valid (map sanitize_batch bs) /\
+  (batches_ok bs -> batches_ok (map sanitize_batch bs)) /\
+  (oracle_valid bs -> oracle_valid (map sanitize_batch bs)).
+Proof.
+  intros bs. split.
+  - intros H. pose proof (sanitize_batches_id bs H) as E. split; [exact E|].
+    unfold run_entry. now rewrite E.
+  - split; [apply recs_valid_sanitized|]. split; [apply batches_ok_sanitized|].
+    apply oracle_valid_sanitized.
+Qed.
+Print Assumptions C15_sanitising_changes_only_invalid_keys.
+
+(* Every string that names an entry of a reachable state (method, URL, consumer
+   tag, interceptor type and version, in all five maps) is valid UTF-8 —
+   provided the URL tree answers well-formed text for well-formed text
+   ([oracle_valid]: its answers are made of parts of the URLs it was given). *)
+Theorem C15_entry_keys_valid_utf8 : forall bs, batches_ok bs -> oracle_valid bs ->
+  state_valid (run_entry bs) /\ wf_state (run_entry bs).
+Proof.
+  intros bs Ok O. split; [now apply state_valid_run_entry|].
+  apply wf_run. now apply batches_ok_sanitized.
+Qed.
+Print Assumptions C15_entry_keys_valid_utf8.
+
+(* Hence the JSON writer, whatever it does to ill-formed strings, leaves the
+   file of a reachable state exactly as [persist] describes it, and the round
+   trip of section 3 holds through it: every key, count, status count and sum
+   comes back, the time fields floored to the second. *)
+Theorem C15_roundtrip_through_json : forall js bs,
+  json_ok js -> batches_ok bs -> oracle_valid bs ->
+  let s := run_entry bs in
+  json_p js (persist s) = persist s /\
+  restore (json_p js (persist s)) = fl_state s /\
+  count_where everywhere (sE (restore (json_p js (persist s)))) = count_where everywhere (sE s) /\
+  count_where everywhere (sC (restore (json_p js (persist s)))) = count_where everywhere (sC s) /\
+  sES (restore (json_p js (persist s))) = sES s /\ sCS (restore (json_p js (persist s))) = sCS s.
+Proof.
+  intros js bs J Ok O. cbn zeta.
+  destruct (C15_entry_keys_valid_utf8 bs Ok O) as [V W].
+  rewrite (json_persist js _ J V). split; [reflexivity|]. split; [now apply restore_persist|].
+  exact (C15_totals_survive_restart (map sanitize_batch bs) (batches_ok_sanitized bs Ok)).
+Qed.
+Print Assumptions C15_roundtrip_through_json.
+
+(* "The totals survive the round trip through the JSON file" for a pipeline
+   [entry] and a JSON string function [js]. *)
+Definition C15_totals_survive_json (entry : list batch -> state) (js : str -> str) : Prop :=
+  forall bs, batches_ok bs -> oracle_valid bs ->
+    count_where everywhere (sE (restore (json_p js (persist (entry bs)))))
+    = count_where everywhere (sE (entry bs)).
+
+Theorem C15_totals_survive_json_with_sanitising : forall js, json_ok js ->
+  C15_totals_survive_json run_entry js.
+Proof.
+  intros js J bs Ok O.
+  destruct (C15_roundtrip_through_json js bs J Ok O) as (_ & _ & A & _). exact A.
+Qed.
+Print Assumptions C15_totals_survive_json_with_sanitising.
+
+(* Without sanitising (the code before fix-F-C15e) it fails for a JSON writer
+   that replaces ill-formed bytes — [to_valid_utf8] is such a [json_ok]
+   function: the URLs h/\xff (2 records) and h/\xfe (3 records) are two
+   endpoints in memory and one entry "GET:::h/�" of the file: 5 requests
+   before the restart, 3 after it. *)
+Theorem C15_totals_survive_json_without_sanitising_refuted :
+  json_ok to_valid_utf8 /\ ~ C15_totals_survive_json run to_valid_utf8.
+Proof.
+  split; [exact to_valid_utf8_id|]. intros F.
+  assert (Ok : batches_ok non_utf8) by (vm_compute; repeat constructor; discriminate).
+  assert (O : oracle_valid non_utf8).
+  { constructor; [|constructor]. cbn. repeat split; intros u H; exact H. }
+  specialize (F non_utf8 Ok O). vm_compute in F. discriminate F.
+Qed.
+Print Assumptions C15_totals_survive_json_without_sanitising_refuted.
+
+(* Non-vacuity: as logged the history holds two URLs and a consumer tag that
+   are not UTF-8; sanitised, the two URLs read the same and are one endpoint
+   with all 5 requests and all 4 status codes, before and after the round trip
+   through the replacing writer; the hypotheses of the theorems above hold. *)
+Example C15_non_utf8_history :
+  batches_ok non_utf8 /\
+  valid_utf8b nu_a = false /\ valid_utf8b nu_b = false /\
+  map (fun e => (fst e, a_count (snd e))) (sE (run non_utf8))
+    = [(([71; 69; 84], nu_a), 2); (([71; 69; 84], nu_b), 3)] /\
+  map (fun e => (fst e, a_count (snd e))) (sE (run_entry non_utf8))
+    = [(([71; 69; 84], [104; 47; 239; 191; 189]), 5)] /\
+  map (fun e => fst (fst e)) (sC (run_entry non_utf8)) = [[116; 239; 191; 189]] /\
+  count_where everywhere (sE (restore (json_p to_valid_utf8 (persist (run_entry non_utf8))))) = 5 /\
+  map snd (sES (restore (json_p to_valid_utf8 (persist (run_entry non_utf8))))) = [2; 1; 1; 1] /\
+  count_where everywhere (sE (restore (json_p to_valid_utf8 (persist (run non_utf8))))) = 3.
+Proof.
+  split; [vm_compute; repeat constructor; discriminate|]. vm_compute. repeat split; reflexivity.
+Qed.
